@@ -6,6 +6,9 @@ From Verif Require Import C20.Model C20.Proofs.
 Import ListNotations.
 Open Scope Z_scope.
 
+(* integer literals in value position are integer VALUES *)
+Local Coercion VInt : Z >-> val.
+
 Definition genes0 : list gene :=
   [ mkGene 0 1 Structural 0 true Normal;
     mkGene 1 5 Conditional 1 false Normal;
@@ -27,7 +30,7 @@ Definition A0 := init_genome true None genes0.         (* allow_mutations on *)
    unauthorised mutation, calls on the child *)
 Definition hist : list op :=
   [ (0%nat, OMutate 0 2); (0%nat, OMutate 1 6); (0%nat, OAdd (mkGene 1 8 Structural 0 false Low));
-    (0%nat, OSilence 0); (0%nat, OReplicate [(0, 4); (1, 3)] true);
+    (0%nat, OSilence 0); (0%nat, OReplicate [(0, VInt 4); (1, VInt 3)] true);
     (1%nat, OMutate 0 11); (1%nat, ORollback 0); (0%nat, ORollback 1); (0%nat, OExpress [1]) ].
 
 (* c20_unauthorised_ops_change_nothing: hypotheses hold, and the run is not
@@ -35,7 +38,7 @@ Definition hist : list op :=
 Example ex_unauthorised :
   nth_error [P0] 0 = Some P0 /\ allow P0 = false /\
   exists G', nth_error (run [P0] hist) 0 = Some G' /\
-    stored P0 0 = Some 1 /\ stored G' 0 = Some 2 /\ stored G' 1 = Some 5 /\
+    stored P0 0 = Some (VInt 1) /\ stored G' 0 = Some (VInt 2) /\ stored G' 1 = Some (VInt 5) /\
     mlog G' = [mkM 0 1 2 RUser true; mkM 1 5 6 RUser false] /\
     length (run [P0] hist) = 2%nat.
 Proof. vm_compute. repeat split. eexists. repeat split. Qed.
@@ -57,12 +60,12 @@ Qed.
 
 (* c20_refused_mutations_logged / c20_refused_rollback_logged *)
 Example ex_refused_mutate :
-  exists W', step [P0] (0%nat, OMutate 1 6) = (W', RetBool false) /\ stored P0 1 = Some 5.
+  exists W', step [P0] (0%nat, OMutate 1 6) = (W', RetBool false) /\ stored P0 1 = Some (VInt 5).
 Proof. vm_compute. eexists. split; reflexivity. Qed.
 
 Definition U1 := g_run U0 [OMutate 0 2].
 Example ex_refused_rollback :
-  stored U1 0 = Some 2 /\
+  stored U1 0 = Some (VInt 2) /\
   last_approved (mlog U1) 0 = Some (mkM 0 1 2 RUser true) /\
   exists W', step [U1] (0%nat, ORollback 0) = (W', RetBool false) /\
     nth_error W' 0 = Some (add_log U1 (mkM 0 2 1 RRollback false)).
@@ -71,10 +74,10 @@ Proof. vm_compute. repeat split. eexists. split; reflexivity. Qed.
 (* c20_refused_replication_logged(_dict), c20_child_*: one replication
    mutation authorised (gene 0), one refused (gene 1) *)
 Example ex_replication :
-  let c := g_replicate P0 [(0, 4); (1, 3)] true in
-  NoDup (map fst [(0, 4); (1, 3)]) /\
-  stored P0 1 = Some 5 /\ approved_by P0 1 5 3 RReplication = false /\
-  stored c 0 = Some 4 /\ stored c 0 <> stored P0 0 /\ stored c 1 = Some 5 /\
+  let c := g_replicate P0 [(0, VInt 4); (1, VInt 3)] true in
+  NoDup (map fst [(0, VInt 4); (1, VInt 3)]) /\
+  stored P0 1 = Some (VInt 5) /\ approved_by P0 1 5 3 RReplication = false /\
+  stored c 0 = Some (VInt 4) /\ stored c 0 <> stored P0 0 /\ stored c 1 = Some (VInt 5) /\
   mlog c = [mkM 0 1 4 RReplication true; mkM 1 5 3 RReplication false] /\
   map e_level (tbl c) = [Normal; Normal; High; Silenced].
 Proof.
@@ -82,32 +85,32 @@ Proof.
   repeat constructor; cbn; intuition discriminate.
 Qed.
 
-Example ex_wf : wf P0 /\ wf A0 /\ wf (g_replicate P0 [(0, 4)] false).
+Example ex_wf : wf P0 /\ wf A0 /\ wf (g_replicate P0 [(0, VInt 4)] false).
 Proof. repeat split; apply NoDup_cons_iff || idtac; vm_compute; repeat constructor; cbn; intuition discriminate. Qed.
 
 (* c20_replicate_preserves_parent *)
 Example ex_replicate_step :
-  exists W' r, step [P0] (0%nat, OReplicate [(0, 4)] true) = (W', r) /\
+  exists W' r, step [P0] (0%nat, OReplicate [(0, VInt 4)] true) = (W', r) /\
     nth_error W' 0 = Some P0 /\ length W' = 2%nat.
 Proof. eexists. eexists. split; [reflexivity|]. vm_compute. split; reflexivity. Qed.
 
 (* c20_express_exact: the silenced (3) and dormant (2) genes never appear,
    the conditional one (1) only when named *)
 Example ex_express :
-  g_express P0 [] = [(0, 1)] /\ g_express P0 [1; 2; 3] = [(0, 1); (1, 5)] /\
-  g_express (fst (g_set_level P0 3 Low)) [] = [(0, 1); (3, 9)].
+  g_express P0 [] = [(0, VInt 1)] /\ g_express P0 [1; 2; 3] = [(0, VInt 1); (1, VInt 5)] /\
+  g_express (fst (g_set_level P0 3 Low)) [] = [(0, VInt 1); (3, VInt 9)].
 Proof. vm_compute. repeat split. Qed.
 
 (* c20_rollback_restores: approved mutation 1 -> 2 of gene 0, other calls,
    then an authorised rollback gives 1 back; under [user_only] the rollback is
    refused and logged *)
 Definition between : list op :=
-  [ (0%nat, OMutate 1 6); (0%nat, OSilence 0); (0%nat, OReplicate [(0, 9)] true); (1%nat, OMutate 0 3) ].
+  [ (0%nat, OMutate 1 6); (0%nat, OSilence 0); (0%nat, OReplicate [(0, VInt 9)] true); (1%nat, OMutate 0 3) ].
 
 Example ex_rollback :
-  exists W1, step [P0] (0%nat, OMutate 0 2) = (W1, RetBool true) /\ stored P0 0 = Some 1 /\
+  exists W1, step [P0] (0%nat, OMutate 0 2) = (W1, RetBool true) /\ stored P0 0 = Some (VInt 1) /\
     exists W3, step (run W1 between) (0%nat, ORollback 0) = (W3, RetBool true) /\
-      exists G3, nth_error W3 0 = Some G3 /\ stored G3 0 = Some 1 /\
+      exists G3, nth_error W3 0 = Some G3 /\ stored G3 0 = Some (VInt 1) /\
         mlog G3 = [mkM 0 1 2 RUser true; mkM 1 5 6 RUser false; mkM 0 2 1 RRollback true].
 Proof.
   eexists. split; [reflexivity|]. split; [reflexivity|].
@@ -118,9 +121,9 @@ Qed.
 (* with allow_mutations on, the same calls do change values (the theorems'
    allow = false hypothesis is what protects them), and a re-add overwrites *)
 Example ex_allowed_changes :
-  stored (g_run A0 [OMutate 1 6]) 1 = Some 6 /\
-  stored (g_run A0 [OAdd (mkGene 1 8 Structural 0 false Low)]) 1 = Some 8 /\
-  stored (g_run D0 [OAdd (mkGene 1 8 Structural 0 false Low)]) 1 = Some 5.
+  stored (g_run A0 [OMutate 1 6]) 1 = Some (VInt 6) /\
+  stored (g_run A0 [OAdd (mkGene 1 8 Structural 0 false Low)]) 1 = Some (VInt 8) /\
+  stored (g_run D0 [OAdd (mkGene 1 8 Structural 0 false Low)]) 1 = Some (VInt 5).
 Proof. vm_compute. repeat split. Qed.
 
 (* c20_unauthorised_sequence_changes_nothing: a callback that approves changes
@@ -128,7 +131,7 @@ Proof. vm_compute. repeat split. Qed.
    replication and a rollback with nothing to roll back are all unauthorised *)
 Definition unauth_ops : list gop :=
   [ OMutate 1 6; OAdd (mkGene 1 8 Structural 0 false Low); OSilence 0; OMutate 3 0;
-    OReplicate [(0, 4)] true; ORollback 1; OSetExpr 2 Low; OExpress [1] ].
+    OReplicate [(0, VInt 4)] true; ORollback 1; OSetExpr 2 Low; OExpress [1] ].
 
 Example ex_all_unauthorised :
   all_unauthorised P0 unauth_ops /\ length (mlog (g_run P0 unauth_ops)) = 2%nat.
@@ -137,3 +140,65 @@ Proof.
   cbn [all_unauthorised unauth_ops unauthorised].
   repeat split; intros; vm_compute; congruence.
 Qed.
+
+(* ---- values other than integers --------------------------------------- *)
+
+(* c20_rollback_never_silent / c20_rollback_target with the value None: a gene
+   configured as None ("no limit") is mutated with approval and rolled back;
+   the log's last approved entry on it records the original value None, and
+   the rollback restores None.  Also after mutating TO None and on to a string. *)
+Definition str (s : list Z) : val := VStr s.
+Definition genesN : list gene :=
+  [ mkGene 0 VNone Structural 0 false Normal;
+    mkGene 1 (VBool false) Structural 1 false Normal;
+    mkGene 2 (str []) Structural 2 false Normal ].
+Definition N0 := init_genome false only0 genesN.
+Definition N1 := g_run N0 [OMutate 0 4096].
+
+Example ex_rollback_to_none :
+  In (mkM 0 VNone 4096 RUser true) (mlog N1) /\ stored N1 0 = Some (VInt 4096) /\
+  approved_by N1 0 4096 VNone RRollback = true /\
+  exists G', g_rollback N1 0 = (G', true) /\ stored G' 0 = Some VNone /\
+    mlog G' = [mkM 0 VNone 4096 RUser true; mkM 0 4096 VNone RRollback true] /\
+    ghash G' = ghash N0 /\ ghash N1 <> ghash N0.
+Proof.
+  split; [vm_compute; auto|]. split; [reflexivity|]. split; [reflexivity|].
+  eexists. split; [vm_compute; reflexivity|]. vm_compute. repeat split. discriminate.
+Qed.
+
+Example ex_rollback_through_none :
+  let G := g_run N0 [OMutate 0 7; OMutate 0 VNone; OMutate 0 (str [101])] in
+  stored G 0 = Some (str [101]) /\
+  stored (g_run G [ORollback 0]) 0 = Some VNone /\
+  stored (g_run G [ORollback 0; ORollback 0]) 0 = Some (str [101]).
+Proof. vm_compute. repeat split. Qed.
+
+(* refused rollback to None is logged (c20_rollback_never_silent, second case) *)
+Definition UN := g_run (init_genome false user_only genesN) [OMutate 0 1].
+Example ex_refused_rollback_to_none :
+  approved_by UN 0 1 VNone RRollback = false /\
+  g_rollback UN 0 = (add_log UN (mkM 0 1 VNone RRollback false), false).
+Proof. vm_compute. split; reflexivity. Qed.
+
+(* values are told apart by type: False / 0 / 0.0 / "" / None, and 1 / True /
+   1.0 / "1", are ten different values with ten different hashes, and
+   get_value's default is told apart from a stored None by a second default *)
+Definition falsy : list val :=
+  [VNone; VBool false; VInt 0; VFloat 0 1; str []; VInt 1; VBool true; VFloat 1 1; str [49]; str [48]].
+Example ex_values_distinct :
+  NoDup falsy /\
+  NoDup (map (fun v => ghash (g_run (init_genome true None genesN) [OMutate 0 v])) falsy) /\
+  g_get_value N0 0 VNone = VNone /\ g_get_value N0 0 (VInt (-1000)) = VNone /\
+  g_get_value N0 9 (VInt (-1000)) = VInt (-1000) /\
+  g_get_value (g_run N0 [OSilence 0]) 0 (VInt (-1000)) = VInt (-1000).
+Proof.
+  split; [|split].
+  - unfold falsy. repeat (constructor; [cbn [In]; intuition discriminate|]). constructor.
+  - vm_compute. repeat (constructor; [cbn [In]; intuition discriminate|]). constructor.
+  - vm_compute. repeat split.
+Qed.
+
+(* express carries None values like any other *)
+Example ex_express_none :
+  g_express N0 [] = [(0, VNone); (1, VBool false); (2, str [])].
+Proof. vm_compute. reflexivity. Qed.
